@@ -295,6 +295,7 @@ func (e *Engine) worker(id int) {
 		id:                 id,
 		trace:              e.Opts.Trace,
 		scratch:            map[int]uint64{},
+		fnInfos:            map[*ssa.Function]*fnInfo{},
 	}
 	for {
 		it, ok := e.pop()
